@@ -393,7 +393,8 @@ oscore_validate_sender_seq(oscore_recipient_ctx_t *ctx, cose_encrypt0_t *cose) {
                   incoming_seq);
     return 0;
   } else { /* incoming_seq < last_seq */
-    uint64_t shift = ctx->last_seq - incoming_seq - 1;
+    /* bit k of the window stands for last_seq - k (see the update above) */
+    uint64_t shift = ctx->last_seq - incoming_seq;
     uint64_t pattern;
 
     if (shift > ctx->osc_ctx->replay_window_size || shift > 63) {
